@@ -2,7 +2,7 @@
    Only statements; every proof is [exact] of a lemma of Tree/GenProofs.v. *)
 From Coq Require Import List Arith.
 Import ListNotations.
-From Onet Require Import Tree.Gen Tree.GenProofs Tree.GenBigProofs Corr.C12 Tree.CheckProofs.
+From Onet Require Import Tree.Gen Tree.GenProofs Tree.GenBigProofs Tree.GenBigShape Corr.C12 Tree.CheckProofs.
 From Coq Require Import Permutation.
 
 (* The n-ary generator (and hence the binary and star generators) returns, in
@@ -112,3 +112,30 @@ Theorem c12_checker_accepts_model_bad_root : forall n N k ids links ridx,
   check (CNary n N RForeign (gen_nary n N RForeign) ids links ridx) = [].
 Proof. exact check_accepts_model_bad_root. Qed.
 Print Assumptions c12_checker_accepts_model_bad_root.
+
+(* the tree returned by the big generator is well formed, for every roster, host pattern,
+   branching factor >= 1 and node count: the root is member 0 and has no parent; every other
+   node's parent is an earlier node and parents are non-decreasing in breadth-first order
+   (parents_bfs); every roster position is in range; no node has more than N children *)
+Theorem c12_big_wellformed : forall hosts N nodes l,
+  hosts <> [] -> 1 <= N -> gen_big hosts N nodes = GTree l ->
+  wf_tree (length hosts) N l = true /\ hd_error l = Some (0, 0).
+Proof. exact gen_big_wellformed. Qed.
+Print Assumptions c12_big_wellformed.
+
+(* pairwise distinct node identifiers: every generator output that uses every member once has
+   pairwise distinct roster positions, hence pairwise distinct identifiers for every injective
+   derivation of the identifier from the member (what remains is the derivation's injectivity:
+   uuid-SHA1 of the key, see c12_ids_distinct for the collision reading) *)
+Theorem c12_nary_ids_distinct : forall n N root l (idf : nat -> nat),
+  1 <= N -> 1 <= n -> (root = RNil \/ exists k, root = RIdx k /\ k < n) ->
+  (forall a b, idf a = idf b -> a = b) ->
+  gen_nary n N root = GTree l -> NoDup (map fst l) /\ NoDup (map idf (map fst l)).
+Proof. exact nary_ids_distinct. Qed.
+Print Assumptions c12_nary_ids_distinct.
+
+Theorem c12_big_ids_distinct : forall hosts N (idf : nat -> nat),
+  hosts <> [] -> 1 <= N -> (forall a b, idf a = idf b -> a = b) ->
+  exists l, gen_big hosts N (length hosts) = GTree l /\ NoDup (map fst l) /\ NoDup (map idf (map fst l)).
+Proof. exact big_ids_distinct. Qed.
+Print Assumptions c12_big_ids_distinct.
